@@ -13,17 +13,17 @@ from mc.models import odf, rowmodel
 
 # name -> (declaration, fixed width, accepted cells, rejected cells)
 CATALOGUE = {
-    "id": ({"type": "Integer", "rule": {"items": [[0, 99, False]]}}, 3, ["1", "2", "3", "42", "0"], ["x", "100", "-1"]),
+    "id": ({"type": "Integer", "rule": {"items": [[0, 99, False]]}}, 3, ["1", "2", "3", "42", "0"], ["x", "100", "-1", "3.0"]),
     "name": ({"type": "Text", "length": [[1, 3, False]]}, 3, ["ab", "c", "xyz"], ["", "abcd"]),
     "kind": ({"type": "Choice", "empty": True, "rule": {"choices": ["a", "b"], "quoted": True}}, 1, ["a", "b", ""], ["q", "A"]),
-    "amount": ({"type": "Decimal", "rule": {"items": [["0", "99.99", False]]}}, 6, ["1.5", "99.99", "0"], ["100", "1,5"]),
+    "amount": ({"type": "Decimal", "rule": {"items": [["0", "99.99", False]]}}, 6, ["1.5", "7.0", "99.99", "0"], ["100", "1,5"]),
     "day": ({"type": "DateTime", "rule": {"parts": ["DD", "MM", "YYYY"], "seps": [".", "."]}}, 10, ["01.02.2000", "29.02.2024"], ["31.02.2000", "x"]),
     "stamp": ({"type": "DateTime", "rule": {"parts": ["YYYY", "MM", "DD", "hh", "mm", "ss"], "seps": ["-", "-", " ", ":", ":"]}}, 19,
               ["2021-03-06 00:00:00", "2021-03-06 13:14:15", "1999-12-31 23:59:59"], ["2021-03-06", "2021-13-06 00:00:00"]),
     "code": ({"type": "Pattern", "rule": {"tokens": ["a", "?", "c", "*"]}}, 5, ["abc", "aXcdd"], ["ab", "xbc"]),
     "tag": ({"type": "RegEx", "rule": {"ast": ["seq", [["+", ["set", False, "ab"]], ["lit", "c"]]]}}, 3, ["abc", "bc"], ["c", "xc"]),
     "const": ({"type": "Constant", "rule": {"token": "K", "style": "str"}}, 1, ["K"], ["k", "Q"]),
-    "note": ({"type": "Text", "empty": True}, 2, ["", "zz", "n"], []),
+    "note": ({"type": "Text", "empty": True}, 4, ["", "v2.0", "zz", "n"], []),
     "ka": ({"type": "Text", "length": [[1, 1, True]]}, 1, ["x", "y"], ["", "xx"]),
     "kb": ({"type": "Text", "length": [[1, 2, False]]}, 2, ["x", "y"], [""]),
     "kc": ({"type": "Integer", "rule": {"items": [[0, 9, False]]}}, 1, ["1", "2"], ["z"]),
